@@ -59,20 +59,89 @@ def insert (p : PList) (pos : Nat) (v : Int) : Option (PList × Nat) :=
   | none => none
   | some item => some (link p1 item pos v, item)               -- return item;
 
+/-- the body of `remove` once `item->next` has been read (`n`) -/
+def unlink (p : PList) (item n : Nat) : PList :=
+  { p with
+    begin := (match p.prev item with
+      | none => n                                              -- (_begin.item = item->next)
+      | some _ => p.begin),
+    next := (match p.prev item with
+      | none => p.next
+      | some q => set p.next q (some n)),                      -- (item->prev->next = item->next)
+    prev := set (set p.prev n (p.prev item)) item p.free,      --   ->prev = 0 / ->prev = item->prev;  item->prev = freeItem;
+    size := p.size - 1,                                        -- --_size;
+    free := some item }                                        -- freeItem = item;
+
 /-- `Iterator remove(const Iterator& it)`; returns the new state and `item->next` -/
 def remove (p : PList) (item : Nat) : Option (PList × Nat) :=
   match p.next item with
   | none => none
-  | some n =>
-    let begin1 := match p.prev item with
-      | none => n                                              -- (_begin.item = item->next)
-      | some _ => p.begin
-    let next1 := match p.prev item with
-      | none => p.next
-      | some q => set p.next q (some n)                        -- (item->prev->next = item->next)
-    let prev1 := set p.prev n (p.prev item)                    --   ->prev = 0   /   ->prev = item->prev;
-    let prev2 := set prev1 item p.free                         -- item->prev = freeItem;
-    some ({ p with begin := begin1, next := next1, prev := prev2, size := p.size - 1,   -- --_size;
-                   free := some item }, n)                     -- freeItem = item; return item->next;
+  | some n => some (unlink p item n, n)                        -- return item->next;
+
+/-- `it = begin(); for(k times) ++it;` — the address designated by the iterator at position `k`
+    (`none` = a null `next` pointer was followed) -/
+def walk (p : PList) : Nat → Nat → Option Nat
+  | a, 0 => some a
+  | a, k + 1 =>
+    match p.next a with
+    | some n => walk p n k
+    | none => none
+
+/-- the loop of `clear()`: `for(i = _begin.item; i != end; i = i->next) { i->~Item(); i->prev = freeItem; freeItem = i; }`
+    (`fuel` bounds the number of iterations: `_size` suffices, theorem `ptr_refines`) -/
+def clearLoop (p : PList) : Nat → Nat → Option PList
+  | _, 0 => some p
+  | 0, _ + 1 => none
+  | fuel + 1, i + 1 =>
+    match p.next (i + 1) with
+    | none => none
+    | some n => clearLoop { p with prev := set p.prev (i + 1) p.free, free := some (i + 1) } fuel n
+
+/-- `clear()` -/
+def clear (p : PList) : Option PList :=
+  match clearLoop p p.size p.begin with
+  | none => none
+  | some p1 => some { p1 with begin := 0, prev := set p1.prev 0 none, size := 0 }   -- _begin.item = &endItem; endItem.prev = 0; _size = 0;
+
+/-- histories of the relinking operations, iterators given as positions (as the harness does) -/
+inductive POp where
+  | insert (k : Nat) (v : Int)
+  | remove (k : Nat)
+  | clear
+
+def step (p : PList) : POp → Option PList
+  | .insert k v =>
+    if k ≤ p.size then
+      match walk p p.begin k with
+      | some a => (insert p a v).map (·.1)
+      | none => none
+    else none
+  | .remove k =>
+    if k < p.size then
+      match walk p p.begin k with
+      | some a => (remove p a).map (·.1)
+      | none => none
+    else none
+  | .clear => clear p
+
+def run (p : PList) : List POp → PList
+  | [] => p
+  | op :: ops =>
+    match step p op with
+    | some p' => run p' ops
+    | none => run p ops
+
+/-- the same history on the chain model -/
+def stepChain (s : LState) : POp → Option LState
+  | .insert k v => (s.insert k v).map (·.st)
+  | .remove k => (s.remove k).map (·.st)
+  | .clear => some s.clear
+
+def runChain (s : LState) : List POp → LState
+  | [] => s
+  | op :: ops =>
+    match stepChain s op with
+    | some s' => runChain s' ops
+    | none => runChain s ops
 
 end Nstd.Seq.Ptr
